@@ -39,11 +39,11 @@ theorem xmembers_rej (lc : Libc) (hl : LibcSpec lc) (ms : List (Gap × Quote × 
         (r = [] → X = trailText tr ++ 125 :: rs) ∧
         (∀ m2 r2, r = m2 :: r2 → X = 44 :: (intercalateB 44 (xmembersText (m2 :: r2)) ++ (trailText tr ++ 125 :: rs))) := by
       cases r with
-      | nil => exact ⟨trailText tr ++ 125 :: rs, by simp [intercalateB, xmembersText], fun _ => rfl, fun _ _ h => by cases h⟩
+      | nil => exact ⟨trailText tr ++ 125 :: rs, (by simp [intercalateB, xmembersText]), (fun _ => rfl), (fun _ _ h => by cases h)⟩
       | cons e2 r2 =>
         obtain ⟨a1, a2, a3, a4, a5, a6, a7⟩ := e2
         exact ⟨44 :: (intercalateB 44 (xmembersText ((a1, a2, a3, a4, a5, a6, a7) :: r2)) ++ (trailText tr ++ 125 :: rs)),
-          by simp [intercalateB, xmembersText], fun h => by cases h, fun m2 r2' h => by cases h; rfl⟩
+          (by simp [intercalateB, xmembersText]), (fun h => by cases h), (fun m2 r2' h => by cases h; rfl)⟩
     rw [hX.1]
     cases h1 : g1.plain with
     | false => exact gap_err lc t l hv hst sv (.obj kvs) nm rest hs hgp g1 h1 c off _
